@@ -339,6 +339,8 @@ def check_S6(ctx, facts, rule='C01.S6'):
 
 def check(ctx):
     facts = ctx.facts('prod')
+    import versions_abs as _va
+    _va.check_forgiveness_value(ctx, facts, 'C01.S8.F')      # (round 8, C01i) the forgiveness period of the non-test build is the stated hour
     cg = CallGraph(facts)
     check_S6(ctx, facts)
     check_S1(ctx, facts, cg)
